@@ -149,7 +149,7 @@ def c01(tier):
         # second, implementation-shaped semantics (spec/Machine.tla): the compiler's output for every form and the
         # register trace of every instruction, for grammar sessions and scope skeletons
         q = tier == 'quick'
-        mcov.update(mach.run(verdict, wd, [('lang', 25 if q else 1500), ('scope3', 10 if q else 600)], vlib.seed()))
+        mcov.update(mach.run(verdict, wd, [('lang', 25 if q else 600), ('scope3', 10 if q else 250)], vlib.seed()))
 
     return cek_property('C01', tier, plan, relevant, extra_check=machine_check,
                         extra_cov=lambda sessions, ends: {'compiler_and_instruction_traces': mcov}, rule=
